@@ -32,6 +32,15 @@ for res in sorted(glob.glob("/tmp/seedout/*/m*/result.json")):
             continue
         for p_, c in er.get("checks", {}).items():
             meta["checks"][p_] = {"exit": c["rc"], "violations": c["violations"], "wall_s": c["wall_s"], "replays": c.get("replays", [])[:2], "cross_property": True}
+    first = os.path.join(d, "result.first.json")
+    if os.path.exists(first):
+        try:
+            fr = json.load(open(first))
+            meta["first_verdict"] = {"note": "verdict of the checks as they were when the change arrived, before any strengthening",
+                                     "caught": fr.get("caught"),
+                                     "checks": {p: {"exit": c["rc"], "violations": c["violations"]} for p, c in fr.get("checks", {}).items()}}
+        except Exception:
+            pass
     meta["caught"] = any(c["exit"] == 1 and c["violations"] for c in meta["checks"].values())
     meta.setdefault("evaluated_at_repo_commit", base)
     json.dump(meta, open(os.path.join(out, "meta.json"), "w"), indent=1)
